@@ -398,51 +398,65 @@ Example C18_ex_group_nodes :
 Proof. vm_compute. split; [reflexivity|]. eexists _, _, _. repeat split; reflexivity. Qed.
 
 (* End to end, for round brackets around a whole operator expression of any length (the
-   rewrite of C18_parens_operator_expressions): `toks` and `( toks )` are both accepted, and
-   whenever the builder model (Model/BuilderWL.v, diffed against build.rs on every run)
-   succeeds on both -- into the same data object, with any fuel -- the two instruction
-   streams are equal instruction by instruction (operation and jump / list-length /
-   expression operands), the jump tables are equal and the same entry is reported; so the
-   two programs run identically provided their k-th data operands name equal constants.
-   PARTIAL in two respects: (1) the data operands, which in the model are parse-node indices,
-   are blanked ([erase_data]) -- that the k-th data operand of both streams comes from the
-   same source token is not stated; (2) the literal oracle is [lit_all] (every literal
-   parses). *)
+   rewrite of C18_parens_operator_expressions).  [same_code_of_builds sigma toks toks']
+   (Proofs/C18/ParensCode.v), with [sigma k] the place of the k-th token of toks in toks':
+   both token lists are accepted, and whenever the builder model (Model/BuilderWL.v, diffed
+   against build.rs on every run) succeeds on both -- into the same data object, with any
+   fuel, with literal oracles that agree on nodes made from corresponding tokens -- the two
+   instruction streams are equal instruction by instruction: operation, jump / list-length /
+   expression operands, and every data operand (in the model the index of a parse node) names
+   a node made from the corresponding source token ([src_tok]: the node's token index in the
+   list as given), i.e. a constant made from the same text in the same emission order; the
+   jump tables are equal and the same entry is reported.  So every machine run on the two
+   programs is the same.  (That one build succeeds when the other does is not part of the
+   statement: the builder model's fuel is a free parameter; on the tree compiler it holds,
+   C18_group_nodes_emit_nothing_renamed.)
+   This is the first clause of C18_parens_same_code_full_statement below. *)
 Theorem C18_parens_whole_same_code_partial : forall (toks : list token_type) (t : rtree),
   no_separators toks = true -> pratt toks = Some t ->
-  same_code_of_builds toks (TT_StartGroup :: toks ++ [TT_EndGroup]).
+  same_code_of_builds S toks (TT_StartGroup :: toks ++ [TT_EndGroup]).
 Proof. exact parens_whole_same_code. Qed.
 Print Assumptions C18_parens_whole_same_code_partial.
 
-(* the full statement (not proved): the same for the other two bracket rewrites -- one value
-   token, an existing group -- whose reference trees are so far only known up to
-   [strip_groups] (the machine simulation of Proofs/C18/ViaPrattParens.v), which is too coarse
-   for the builder: `(a b) c` and `a b c` are equal up to groups and build differently *)
+(* the full statement (clauses two and three not proved): the same for the other two bracket
+   rewrites -- one value token, an existing group -- whose reference trees are so far only
+   known up to [strip_groups] (the machine simulation of Proofs/C18/ViaPrattParens.v), which
+   is too coarse for the builder: `(a b) c` and `a b c` are equal up to groups and build
+   differently.  What is missing is the exact reference tree of the bracketed token list (the
+   plain one with one RGroup put around that operand); C18_group_nodes_emit_nothing_renamed
+   then applies as it stands: a value and a group are neutral in every context *)
 Definition C18_parens_same_code_full_statement : Prop :=
   (forall (toks : list token_type) (t : rtree),
      no_separators toks = true -> pratt toks = Some t ->
-     same_code_of_builds toks (TT_StartGroup :: toks ++ [TT_EndGroup])) /\
+     same_code_of_builds S toks (TT_StartGroup :: toks ++ [TT_EndGroup])) /\
   (forall (pre post : list token_type) (v : token_type) (t : rtree),
      is_value_tok v = true -> pratt (pre ++ v :: post) = Some t ->
      definition_eqb (ref_def v) D_Identifier && after_period pre = false ->
-     same_code_of_builds (pre ++ v :: post) (pre ++ TT_StartGroup :: v :: TT_EndGroup :: post)) /\
+     same_code_of_builds (fun k => if k <? length pre then k else if k =? length pre then k + 1 else k + 2)
+       (pre ++ v :: post) (pre ++ TT_StartGroup :: v :: TT_EndGroup :: post)) /\
   (forall (pre e post : list token_type) (t te : rtree),
      pratt (pre ++ TT_StartGroup :: e ++ TT_EndGroup :: post) = Some t -> pratt e = Some te ->
      no_separators e = true ->
-     same_code_of_builds (pre ++ TT_StartGroup :: e ++ TT_EndGroup :: post)
-                         (pre ++ TT_StartGroup :: TT_StartGroup :: e ++ TT_EndGroup :: TT_EndGroup :: post)).
+     same_code_of_builds (fun k => if k <? length pre then k else if k <=? length pre + length e + 1 then k + 1 else k + 2)
+       (pre ++ TT_StartGroup :: e ++ TT_EndGroup :: post)
+       (pre ++ TT_StartGroup :: TT_StartGroup :: e ++ TT_EndGroup :: TT_EndGroup :: post)).
 
-(* non-vacuity: `(a + b)*-c.d~~ e` and the same in brackets both build (14 instructions,
-   data operands at different node indices) and the conclusion holds on them *)
+(* non-vacuity: ` (a + b)*-c.d~~ e` (with a leading blank, so the token offsets differ) and
+   the same in brackets both build (more than 10 instructions, data operands at different
+   node indices) and the conclusion holds on them *)
 Example C18_ex_parens_whole_same_code :
-  no_separators (ex_vp_pre ++ ex_vp_post) = true /\
-  (exists t, pratt (ex_vp_pre ++ ex_vp_post) = Some t) /\
-  match parse (ex_vp_pre ++ ex_vp_post), parse (TT_StartGroup :: (ex_vp_pre ++ ex_vp_post) ++ [TT_EndGroup]) with
+  let toks := TT_Whitespace :: ex_vp_pre ++ ex_vp_post in
+  no_separators toks = true /\
+  (exists t, pratt toks = Some t) /\
+  match parse toks, parse (TT_StartGroup :: toks ++ [TT_EndGroup]) with
   | Ok (root, nodes), Ok (root', nodes') =>
     match build nodes empty_init lit_all (build_fuel nodes) root, build nodes' empty_init lit_all (build_fuel nodes') root' with
     | Ok r, Ok r' =>
-      map erase_data (instrs (fst r')) = map erase_data (instrs (fst r)) /\ jumps (fst r') = jumps (fst r) /\
-      snd r' = snd r /\ instrs (fst r') <> instrs (fst r) /\ 10 <= length (instrs (fst r))
+      map (ren (src_tok (TT_StartGroup :: toks ++ [TT_EndGroup]) nodes')) (instrs (fst r')) =
+        map (ren (fun i => S (src_tok toks nodes i))) (instrs (fst r)) /\
+      jumps (fst r') = jumps (fst r) /\
+      snd r' = snd r /\ instrs (fst r') <> instrs (fst r) /\ 10 <= length (instrs (fst r)) /\
+      existsb (fun i => match snd i with OData _ => true | _ => false end) (instrs (fst r)) = true
     | _, _ => False
     end
   | _, _ => False
